@@ -283,7 +283,16 @@ func c20Run(c core.Case, env *core.Env) core.Result {
 		return res
 	}
 	img := filepath.Join(work, "fs.img")
-	args := []string{"-q", "-F", "-t", o.Type, "-b", fmt.Sprint(o.Block), "-I", fmt.Sprint(o.Inode), "-d", root}
+	// the image file is not blank (0xA5 everywhere) and mke2fs is told not to discard: blocks that belong to
+	// a file without holding its data (unwritten extents) then hold something that must not be shown
+	if fimg, e := os.Create(img); e == nil {
+		pat := bytes.Repeat([]byte{0xA5}, 1<<20)
+		for i := 0; i < o.SizeMB; i++ {
+			fimg.Write(pat)
+		}
+		fimg.Close()
+	}
+	args := []string{"-q", "-F", "-E", "nodiscard", "-t", o.Type, "-b", fmt.Sprint(o.Block), "-I", fmt.Sprint(o.Inode), "-d", root}
 	if len(o.Features) > 0 {
 		args = append(args, "-O", strings.Join(o.Features, ","))
 	}
@@ -303,6 +312,13 @@ func c20Run(c core.Case, env *core.Env) core.Result {
 			}
 			f.xattrs = map[string]string{"user.verif": fmt.Sprintf("value-%d", i)}
 			cmds = append(cmds, fmt.Sprintf("ea_set \"/%s\" user.verif value-%d", f.path, i))
+			if i%6 == 0 {
+				// an attribute whose value is empty
+				empty := filepath.Join(work, "empty.val")
+				os.WriteFile(empty, nil, 0o600)
+				f.xattrs["user.empty"] = ""
+				cmds = append(cmds, fmt.Sprintf("ea_set -f %s \"/%s\" user.empty", empty, f.path))
+			}
 			if p.Shape == "xattrs" && i%4 == 0 {
 				big := strings.Repeat("v", 300) // does not fit in the inode: goes to the xattr block
 				f.xattrs["user.big"] = big
@@ -315,6 +331,21 @@ func c20Run(c core.Case, env *core.Env) core.Result {
 	}
 	if o.Index {
 		exec.Command("e2fsck", "-fyD", img).CombinedOutput()
+	}
+	if p.Shape == "extents" && o.Type == "ext4" && !has(o.Features, "^extent") {
+		// a preallocated file: two blocks of data followed by eight blocks that are allocated but unwritten
+		// (debugfs fallocate, as fallocate(2) leaves them); the size covers them, so they read as zeros
+		for _, f := range files {
+			if f.path == "d/file06.bin" && len(f.data) == int(o.Block)+1 {
+				exec.Command("debugfs", "-w", "-R", fmt.Sprintf("fallocate /%s 1 9", f.path), img).CombinedOutput()
+				exec.Command("debugfs", "-w", "-R", fmt.Sprintf("sif /%s size %d", f.path, 10*o.Block), img).CombinedOutput()
+				nd := make([]byte, 10*o.Block)
+				copy(nd, f.data)
+				f.data = nd
+				f.class = "file-with-unwritten-extent"
+				res.Mark("file with an unwritten (preallocated) extent")
+			}
+		}
 	}
 	if p.Shape == "bigdir" {
 		// history made with the reference tools: every third file of the big directory is unlinked again with
@@ -588,7 +619,10 @@ func c20Run(c core.Case, env *core.Env) core.Result {
 				if len(v) > 200 {
 					loc = "xattr-block"
 				}
-				if string(xa[k]) != v {
+				if got, present := xa[k]; !present {
+					fail("missing-xattr", loc+"/"+pred, "%s: xattr %s (%d-byte value) is on the image but not reported", f.path, k, len(v))
+					return res
+				} else if string(got) != v {
 					fail("wrong-xattr", loc+"/"+pred, "%s: xattr %s has %d bytes on the image, %d bytes reported (%q...)", f.path, k, len(v), len(xa[k]), trunc60(string(xa[k])))
 					return res
 				}
@@ -609,7 +643,7 @@ func init() {
 	core.Register(&core.Check{
 		ID:          "C20",
 		Level:       "exploration",
-		Rule:        "host trees (regular files of boundary sizes, a directory of 400 (thorough: 5000) entries later hash-indexed by e2fsck -fyD and then thinned by unlinking every third file with debugfs rm (slots with inode 0 in front of live entries), sparse files with 2/6/30/420 separate data runs so that extent trees get interior nodes, files beginning or ending with a hole, a 5 GiB sparse file with data runs on both sides of the 2 GiB and 4 GiB offsets (verified by seek+read probes of every run, its surroundings and the holes whose offsets alias a run modulo 2^31 and 2^32), fast and slow symlinks, modes/owners/times on every node, in-inode and block xattrs set with debugfs ea_set) are put into images by the reference mke2fs -d over a fixed option grid: ext4 with block 1k/2k/4k, inode 128/256, ^64bit, ^flex_bg, ^metadata_csum, ^dir_index, ^huge_file, sparse_super2, ^has_journal, plus ext3 and ext2 images without extents; ext4.Read then walks the image with bounded read loops: tree, contents (holes as zeros), sizes, modes, owners, mtimes, link targets and xattrs must equal the input; refusing an image is allowed (except mke2fs's default feature set); per-file errors are allowed only on block-mapped (ext2/ext3) images; wrong data, panics and reads that never finish are violations; non-trivial = an image the library agreed to open; distinct = distinct (options, shape)",
+		Rule:        "host trees (regular files of boundary sizes, a directory of 400 (thorough: 5000) entries later hash-indexed by e2fsck -fyD and then thinned by unlinking every third file with debugfs rm (slots with inode 0 in front of live entries), sparse files with 2/6/30/420 separate data runs so that extent trees get interior nodes, files beginning or ending with a hole, a 5 GiB sparse file with data runs on both sides of the 2 GiB and 4 GiB offsets (verified by seek+read probes of every run, its surroundings and the holes whose offsets alias a run modulo 2^31 and 2^32), fast and slow symlinks, modes/owners/times on every node, in-inode and block xattrs (also with an empty value) set with debugfs ea_set, a preallocated file with an unwritten extent made by debugfs fallocate; the image file is pre-filled with 0xA5 and mke2fs runs with nodiscard) are put into images by the reference mke2fs -d over a fixed option grid: ext4 with block 1k/2k/4k, inode 128/256, ^64bit, ^flex_bg, ^metadata_csum, ^dir_index, ^huge_file, sparse_super2, ^has_journal, plus ext3 and ext2 images without extents; ext4.Read then walks the image with bounded read loops: tree, contents (holes as zeros), sizes, modes, owners, mtimes, link targets and xattrs must equal the input; refusing an image is allowed (except mke2fs's default feature set); per-file errors are allowed only on block-mapped (ext2/ext3) images; wrong data, panics and reads that never finish are violations; non-trivial = an image the library agreed to open; distinct = distinct (options, shape)",
 		Assumptions: []string{"mke2fs/debugfs/e2fsck 1.47.0 are the reference producer; every image is verified clean by e2fsck before the library reads it", "the option grid is fixed (not seeded), so the set of findings on a given tree does not depend on VERIF_SEED"},
 		MinSigs:     map[string]int{"quick": 8, "thorough": 40},
 		NeedMarks:   []string{"options default-features", "file class sparse-file-with-data-beyond-4GiB", "directory entries unlinked with debugfs after mke2fs -d", "shape bigdir", "shape extents", "shape links"},
